@@ -719,8 +719,8 @@ Theorem root_errors ad rows : the_root rows = None -> rel_to_tree ad rows = Rais
 Proof.
   intros H. unfold rel_to_tree. destruct rows as [|r t]; [reflexivity|].
   destruct (negb ad && dup_children (r :: t)); [reflexivity|].
-  destruct (root_names (r :: t)) as [|x [|y l]] eqn:E; try reflexivity.
-  apply root_names_the_root in E. congruence.
+  destruct (root_names (r :: t)) as [|[|c x] [|y l]] eqn:E; try reflexivity;
+    apply root_names_the_root in E; congruence.
 Qed.
 
 (* the model's set of candidates has exactly one element iff the specification's has *)
@@ -756,7 +756,8 @@ Lemma attach_ret rec : forall crs acc ks,
 Proof.
   induction crs as [|r rest IH]; intros acc ks H; cbn [attach] in H.
   - inversion H; subst. exists []. rewrite app_nil_r. split; [reflexivity|constructor].
-  - destruct (mem_str (rchild r) (map tname acc)); [discriminate|].
+  - destruct (rchild r) as [|c0 nm0] eqn:Ec; [discriminate|]. rewrite <- Ec in *.
+    destruct (mem_str (rchild r) (map tname acc)); [discriminate|].
     destruct (rec (rchild r)) as [sub|] eqn:Er; [|discriminate].
     destruct (IH _ _ H) as [new [E F]]. cbn [rev] in E. rewrite <- app_assoc in E.
     exists (T None (rchild r) (retrieve_attr r) sub :: new). split; [exact E|].
@@ -789,7 +790,8 @@ Proof.
   unfold rel_to_tree. destruct rows as [|r0 rs]; [discriminate|].
   remember (r0 :: rs) as rows eqn:Erows.
   destruct (negb ad && dup_children rows) eqn:Ed; [discriminate|].
-  destruct (root_names rows) as [|root [|y l]] eqn:Er; try discriminate.
+  destruct (root_names rows) as [|[|c0 nm0] [|y l]] eqn:Er; try discriminate.
+  remember (c0 :: nm0) as root eqn:Eroot.
   destruct (add_children (S (length rows)) rows root) as [ks|] eqn:Ea; [|discriminate].
   intros H. inversion H; subst t. clear H.
   assert (Hamb : (ad || negb (ambiguous rows)) = true).
@@ -818,10 +820,10 @@ Definition normal_node (n : tree) : bool :=
   match ttag n with None => true | Some _ => false end
   && forallb (fun kv => negb (is_null (snd kv))) (tattrs n).
 
-(* node n of tree t: fresh object without null attributes (what a constructor can return), children with
-   distinct names (a Node invariant), and - unless n is a leaf - no other node of t has n's name *)
+(* node n of tree t: fresh object without null attributes (what a constructor can return), a non-empty name and
+   children with distinct names (Node invariants), and - unless n is a leaf - no other node of t has n's name *)
 Definition valid_node (t n : tree) : bool :=
-  normal_node n && distinct_names (map tname (tkids n))
+  normal_node n && match tname n with [] => false | _ => true end && distinct_names (map tname (tkids n))
   && (is_leaf n || Nat.eqb (cnt (tname n) (map tname (pre t))) 1).
 
 Definition valid_tree (t : tree) : bool := forallb (valid_node t) (pre t).
@@ -948,7 +950,8 @@ Lemma valid_normal t n : valid_tree t = true -> In n (pre t) ->
   ttag n = None /\ filter (fun kv => negb (is_null (snd kv))) (tattrs n) = tattrs n.
 Proof.
   intros Hv Hn. pose proof (valid_node_of t n Hv Hn) as H. unfold valid_node, normal_node in H.
-  apply andb_true_iff in H as [H _]. apply andb_true_iff in H as [H _]. apply andb_true_iff in H as [H1 H2].
+  apply andb_true_iff in H as [H _]. apply andb_true_iff in H as [H _]. apply andb_true_iff in H as [H _].
+  apply andb_true_iff in H as [H1 H2].
   split; [destruct (ttag n); [discriminate|reflexivity]|].
   clear - H2. induction (tattrs n) as [|kv l IH]; [reflexivity|].
   cbn [forallb] in H2. apply andb_true_iff in H2 as [H H2]. cbn [filter]. rewrite H. f_equal. apply IH. exact H2.
@@ -958,6 +961,13 @@ Lemma valid_sibs t n : valid_tree t = true -> In n (pre t) -> NoDup (map tname (
 Proof.
   intros Hv Hn. pose proof (valid_node_of t n Hv Hn) as H. unfold valid_node in H.
   apply andb_true_iff in H as [H _]. apply andb_true_iff in H as [_ H]. apply distinct_names_NoDup. exact H.
+Qed.
+
+Lemma valid_name t n : valid_tree t = true -> In n (pre t) -> tname n <> [].
+Proof.
+  intros Hv Hn. pose proof (valid_node_of t n Hv Hn) as H. unfold valid_node in H.
+  apply andb_true_iff in H as [H _]. apply andb_true_iff in H as [H _]. apply andb_true_iff in H as [_ H].
+  destruct (tname n); [discriminate|discriminate].
 Qed.
 
 (* ---- the three checks before the recursion pass on the relations of a valid tree, in any row order *)
@@ -1093,14 +1103,14 @@ Proof. destruct k; reflexivity. Qed.
 
 Lemma attach_ok rec : forall ks crs acc,
   map (fun k => (tname k, tattrs k)) ks = map (fun r => (rchild r, retrieve_attr r)) crs ->
-  Forall (fun k => ttag k = None /\ rec (tname k) = Ret (tkids k)) ks ->
+  Forall (fun k => (ttag k = None /\ tname k <> []) /\ rec (tname k) = Ret (tkids k)) ks ->
   NoDup (map tname (rev acc ++ ks)) ->
   attach rec crs acc = Ret (rev acc ++ ks).
 Proof.
   induction ks as [|k ks IH]; intros crs acc Hm Hf Hnd; destruct crs as [|r crs]; try discriminate.
   - cbn [attach]. rewrite app_nil_r. reflexivity.
-  - cbn [map] in Hm. inversion Hm as [[Hn Ha Hrest]]. inversion Hf as [|? ? [Hg Hr] Hf']; subst.
-    cbn [attach].
+  - cbn [map] in Hm. inversion Hm as [[Hn Ha Hrest]]. inversion Hf as [|? ? [[Hg Hne] Hr] Hf']; subst.
+    cbn [attach]. destruct (rchild r) as [|c0 nm0] eqn:Ec; [congruence|]. rewrite <- Ec in *.
     assert (Hmem : mem_str (rchild r) (map tname acc) = false).
     { apply mem_str_nIn. intros Hin. rewrite map_app in Hnd. cbn [map] in Hnd.
       apply NoDup_remove_2 in Hnd. apply Hnd. apply in_or_app. left.
@@ -1125,7 +1135,7 @@ Proof.
 Qed.
 
 Lemma build_ok rows : forall t,
-  (forall n, In n (pre t) -> kids_match rows n /\ NoDup (map tname (tkids n)) /\ ttag n = None) ->
+  (forall n, In n (pre t) -> kids_match rows n /\ NoDup (map tname (tkids n)) /\ ttag n = None /\ tname n <> []) ->
   forall fuel, height t <= fuel -> add_children fuel rows (tname t) = Ret (tkids t).
 Proof.
   induction t as [g nm a ks IH] using tree_ind'. intros Hall fuel Hf.
@@ -1136,7 +1146,7 @@ Proof.
   change (Ret ks) with (Ret (A := list tree) (rev [] ++ ks)).
   apply attach_ok; [exact Hm| |exact Hnd].
   apply Forall_forall. intros k Hk. rewrite Forall_forall in IH.
-  assert (Hallk : forall n, In n (pre k) -> kids_match rows n /\ NoDup (map tname (tkids n)) /\ ttag n = None).
+  assert (Hallk : forall n, In n (pre k) -> kids_match rows n /\ NoDup (map tname (tkids n)) /\ ttag n = None /\ tname n <> []).
   { intros n Hn. apply Hall. apply (pre_kid n k (T g nm a ks)); [exact Hk|exact Hn]. }
   split.
   - apply (Hallk k). rewrite pre_unfold. left. reflexivity.
@@ -1247,7 +1257,7 @@ Qed.
 Lemma rel_build b t rows t' :
   valid_tree t = true -> presentable b t -> Permutation rows (rows_of b t) ->
   tname t' = tname t -> tattrs t' = tattrs t -> ttag t' = None ->
-  (forall n, In n (pre t') -> kids_match rows n /\ NoDup (map tname (tkids n)) /\ ttag n = None) ->
+  (forall n, In n (pre t') -> kids_match rows n /\ NoDup (map tname (tkids n)) /\ ttag n = None /\ tname n <> []) ->
   height t' <= S (length rows) ->
   rel_to_tree false rows = Ret t'.
 Proof.
@@ -1258,7 +1268,9 @@ Proof.
   rewrite (tree_rows_no_dup b t rows Hv Hp). cbn [negb andb].
   rewrite (tree_root_names b t rows Hv Hp Hpres).
   rewrite <- Hn. rewrite (build_ok rows t' Hall _ Hh).
-  rewrite Hn, (tree_root_attrs b t rows Hv Hp Hpres), <- Hn, <- Ha, <- Hg. f_equal. symmetry. apply tree_eta.
+  rewrite Hn, (tree_root_attrs b t rows Hv Hp Hpres), <- Hn, <- Ha, <- Hg.
+  assert (Hne : tname t' <> []) by (apply (Hall t'); rewrite pre_unfold; left; reflexivity).
+  destruct (tname t') as [|c0 nm0] eqn:Ec; [congruence|]. rewrite <- Ec. f_equal. symmetry. apply tree_eta.
 Qed.
 
 Theorem relation_of_tree b t :
@@ -1269,7 +1281,7 @@ Proof.
   apply (rel_build b t (rows_of b t) t Hv Hpres (Permutation_refl _) eq_refl eq_refl).
   - apply (valid_normal t t Hv Ht).
   - intros n Hn. split; [apply kids_match_tree; assumption|].
-    split; [apply (valid_sibs t n Hv Hn)|apply (valid_normal t n Hv Hn)].
+    split; [apply (valid_sibs t n Hv Hn)|]. split; [apply (valid_normal t n Hv Hn)|apply (valid_name t n Hv Hn)].
   - pose proof (height_le_size t). pose proof (rows_of_length b t). lia.
 Qed.
 
@@ -1314,17 +1326,18 @@ Lemma reorder_exists rows : forall t,
   (forall n, In n (pre t) ->
      ttag n = None /\ NoDup (map tname (tkids n))
      /\ Permutation (child_rows rows (tname n)) (map (row_of n) (tkids n))
-     /\ filter (fun kv => negb (is_null (snd kv))) (tattrs n) = tattrs n) ->
+     /\ filter (fun kv => negb (is_null (snd kv))) (tattrs n) = tattrs n
+     /\ tname n <> []) ->
   exists t', sim t t' /\ height t' = height t /\
-     (forall n', In n' (pre t') -> kids_match rows n' /\ NoDup (map tname (tkids n')) /\ ttag n' = None).
+     (forall n', In n' (pre t') -> kids_match rows n' /\ NoDup (map tname (tkids n')) /\ ttag n' = None /\ tname n' <> []).
 Proof.
   induction t as [g nm a ks IH] using tree_ind'. intros Hall.
   set (t := T g nm a ks) in *.
   assert (Ht : In t (pre t)) by (rewrite pre_unfold; left; reflexivity).
-  destruct (Hall t Ht) as [_ [Hnd [Hperm _]]]. cbn [tname tkids t] in Hnd, Hperm.
+  destruct (Hall t Ht) as [_ [Hnd [Hperm [_ Hne]]]]. cbn [tname tkids t] in Hnd, Hperm, Hne.
   destruct (Permutation_map_inv _ _ Hperm) as [ks2 [Ecr Hp2]].
   set (Q := fun k k' => sim k k' /\ height k' = height k /\
-     (forall n', In n' (pre k') -> kids_match rows n' /\ NoDup (map tname (tkids n')) /\ ttag n' = None)).
+     (forall n', In n' (pre k') -> kids_match rows n' /\ NoDup (map tname (tkids n')) /\ ttag n' = None /\ tname n' <> [])).
   assert (HQ : Forall (fun k => exists k', Q k k') ks2).
   { apply Forall_forall. intros k Hk. apply (Permutation_in _ (Permutation_sym Hp2)) in Hk.
     rewrite Forall_forall in IH. apply (IH k Hk). intros n Hn. apply Hall.
@@ -1341,7 +1354,7 @@ Proof.
     rewrite (max_height_perm ks ks2 Hp2). apply max_height_Forall2.
     eapply Forall2_impl'; [|exact HQ]. intros k k' [_ [H _]]. exact H.
   - intros n' Hn'. rewrite pre_unfold in Hn'. cbn [tkids] in Hn'. destruct Hn' as [<-|Hn'].
-    + cbn [tkids tname ttag]. split; [|split; [|reflexivity]].
+    + cbn [tkids tname ttag]. split; [|split; [|split; [reflexivity|exact Hne]]].
       * unfold kids_match. cbn [tkids tname]. rewrite <- Hnames, Ecr, map_map.
         apply map_ext_in. intros k Hk. cbn [row_of rchild fst]. f_equal.
         unfold retrieve_attr. change (rattrs (row_of t k)) with (tattrs k). symmetry.
@@ -1362,7 +1375,7 @@ Proof.
   intros Hv Hpres Hp.
   destruct (reorder_exists rows t) as [t' [Hsim [Hh Hall]]].
   { intros n Hn. destruct (valid_normal t n Hv Hn) as [Hg Ha].
-    split; [exact Hg|]. split; [apply (valid_sibs t n Hv Hn)|]. split; [|exact Ha].
+    split; [exact Hg|]. split; [apply (valid_sibs t n Hv Hn)|]. split; [|split; [exact Ha|apply (valid_name t n Hv Hn)]].
     rewrite <- (child_rows_tree b t n Hv Hn). unfold child_rows. apply filter_perm. exact Hp. }
   exists t'. split; [|exact Hsim].
   destruct (sim_name t t' Hsim) as [Hn Ha].
@@ -1457,7 +1470,7 @@ Proof.
   intros Hv Hpres Hp.
   destruct (reorder_exists rows t) as [t' [Hsim [Hh Hall]]].
   { intros n Hn. destruct (valid_normal t n Hv Hn) as [Hg Ha].
-    split; [exact Hg|]. split; [apply (valid_sibs t n Hv Hn)|]. split; [|exact Ha].
+    split; [exact Hg|]. split; [apply (valid_sibs t n Hv Hn)|]. split; [|split; [exact Ha|apply (valid_name t n Hv Hn)]].
     rewrite <- (child_rows_tree b t n Hv Hn). unfold child_rows. apply filter_perm. exact Hp. }
   exists (tkids t'). intros fuel Hf. destruct (sim_name t t' Hsim) as [Hn _]. rewrite <- Hn.
   apply build_ok; [exact Hall|lia].
@@ -1488,3 +1501,86 @@ Qed.
 Theorem prop_on_accepted ad rows :
   (exists t, rel_to_tree ad rows = Ret t) -> prop_rel ad rows (out_of (rel_to_tree ad rows)) = true.
 Proof. intros [t Hr]. rewrite Hr. cbn [out_of]. apply accepted_sound. exact Hr. Qed.
+
+(* ---- nested dictionaries that do not have the documented form are refused *)
+
+Lemma pop_key_none k : forall l, lookup_key k l = None -> pop_key k l = None.
+Proof.
+  induction l as [|[k' v] t IH]; intros H; [reflexivity|]. cbn [lookup_key] in H. cbn [pop_key].
+  destruct (str_eqb k k'); [discriminate|]. rewrite (IH H). reflexivity.
+Qed.
+
+Lemma NoDup_app_single {A} (l : list A) x : NoDup l -> ~ In x l -> NoDup (l ++ [x]).
+Proof.
+  intros Hl Hx. apply (Permutation_NoDup (Permutation_cons_append l x)). constructor; assumption.
+Qed.
+
+Lemma nd_build_clash nk d t sibs :
+  nd_keys_ok d = true -> mirror nk d = Some t -> mem_str (tname t) sibs = true ->
+  nd_build nk sibs d = Raise TreeError.
+Proof.
+  destruct d as [e kind ks]. intros Hk Hm Hs. cbn [nd_keys_ok] in Hk. apply andb_true_iff in Hk as [Hk _].
+  apply distinct_names_NoDup in Hk. rewrite mirror_unfold in Hm. rewrite nd_build_unfold.
+  destruct (lookup_key nk e) as [v|] eqn:El; [|discriminate].
+  rewrite (pop_key_lookup nk e v El Hk).
+  destruct v as [| |[|c nm]| |]; try discriminate.
+  destruct kind; try discriminate.
+  - inversion Hm; subst t. cbn [tname] in Hs. rewrite Hs. reflexivity.
+  - destruct (mirror_list nk ks); [|discriminate]. destruct (distinct_names (map tname l)); [|discriminate].
+    inversion Hm; subst t. cbn [tname] in Hs. rewrite Hs. reflexivity.
+Qed.
+
+Theorem nested_refused nk : forall d,
+  nd_keys_ok d = true -> mirror nk d = None -> forall sibs, exists e, nd_build nk sibs d = Raise e.
+Proof.
+  induction d as [e kind ks IH] using nd_ind'. intros Hk Hm sibs.
+  cbn [nd_keys_ok] in Hk. apply andb_true_iff in Hk as [Hk1 Hk2]. apply distinct_names_NoDup in Hk1.
+  rewrite mirror_unfold in Hm. rewrite nd_build_unfold.
+  destruct (lookup_key nk e) as [v|] eqn:El.
+  2:{ rewrite (pop_key_none nk e El). eexists; reflexivity. }
+  rewrite (pop_key_lookup nk e v El Hk1).
+  destruct v as [| |[|c nm]| |]; try (eexists; reflexivity).
+  - destruct kind; try (eexists; reflexivity); destruct (mem_str [] sibs); eexists; reflexivity.
+  - destruct kind; try discriminate; try (eexists; reflexivity).
+    destruct (mem_str (c :: nm) sibs); [eexists; reflexivity|].
+    assert (Hgo : forall l, Forall (fun d => nd_keys_ok d = true -> mirror nk d = None ->
+                                 forall sibs, exists e, nd_build nk sibs d = Raise e) l ->
+                  forallb nd_keys_ok l = true ->
+                  forall acc, NoDup (map tname (rev acc)) ->
+                  (mirror_list nk l = None \/
+                   exists ts, mirror_list nk l = Some ts /\ ~ NoDup (map tname (rev acc) ++ map tname ts)) ->
+                  exists e, build_list nk l acc = Raise e).
+    { clear. induction l as [|k r IHl]; intros HP Hok acc Hnd Hbad.
+      - exfalso. cbn [mirror_list] in Hbad. destruct Hbad as [Hbad|[ts [E Hbad]]]; [discriminate|].
+        inversion E; subst ts. apply Hbad. cbn [map]. rewrite app_nil_r. exact Hnd.
+      - inversion HP as [|? ? HPk HPr]; subst. cbn [forallb] in Hok. apply andb_true_iff in Hok as [Hok1 Hok2].
+        cbn [build_list]. destruct (nd_build nk (map tname acc) k) as [t0|e0] eqn:Eb; [|eexists; reflexivity].
+        destruct (mirror nk k) as [t|] eqn:Emk.
+        2:{ destruct (HPk Hok1 eq_refl (map tname acc)) as [e1 He1]. congruence. }
+        destruct (mem_str (tname t) (map tname acc)) eqn:Emem.
+        { rewrite (nd_build_clash nk k t _ Hok1 Emk Emem) in Eb. discriminate. }
+        rewrite (nd_build_mirror nk k Hok1 t _ Emk Emem) in Eb. inversion Eb; subst t0.
+        apply (IHl HPr Hok2 (t :: acc)).
+        + cbn [rev]. rewrite map_app. cbn [map]. apply NoDup_app_single. 
+          * exact Hnd.
+          * rewrite map_rev. intros Hin. apply in_rev in Hin. apply mem_str_nIn in Emem. contradiction.
+        + cbn [mirror_list] in Hbad. rewrite Emk in Hbad.
+          destruct (mirror_list nk r) as [ts'|]; [right|left; reflexivity].
+          destruct Hbad as [Hbad|[ts [E Hbad]]]; [discriminate|]. inversion E; subst ts.
+          exists ts'. split; [reflexivity|]. cbn [rev]. rewrite map_app, <- app_assoc. exact Hbad. }
+    destruct (Hgo ks IH Hk2 []) as [e1 He1].
+    + constructor.
+    + destruct (mirror_list nk ks) as [ts|]; [right|left; reflexivity].
+      exists ts. split; [reflexivity|]. cbn [rev map app].
+      destruct (distinct_names (map tname ts)) eqn:Ed; [discriminate|].
+      intros Hnd. apply distinct_names_NoDup in Hnd. congruence.
+    + rewrite He1. eexists; reflexivity.
+Qed.
+
+Theorem nested_refused_top nk d :
+  nd_keys_ok d = true -> mirror nk d = None -> exists e, nested_dict_to_tree nk d = Raise e.
+Proof.
+  intros Hk Hm. unfold nested_dict_to_tree.
+  destruct (nested_refused nk d Hk Hm []) as [e He].
+  destruct d as [[|kv en] [| |] ks]; try (exists e; exact He). eexists; reflexivity.
+Qed.
